@@ -66,6 +66,10 @@ def main():
         ran.append("demo on unchanged tree: exit %d" % rc0)
         res["demo_passes_without"] = rc0 == 0
         rc, out = sh("git apply %s" % os.path.join(os.path.abspath(src), "patch.diff"), cwd=wt)
+        if rc != 0:   # the repository moved on since the change was written: try a 3-way merge
+            rc, out2 = sh("git apply -3 %s" % os.path.join(os.path.abspath(src), "patch.diff"), cwd=wt)
+            out += out2
+            ran.append("patch applied with git apply -3 (HEAD moved since it was written)")
         assert rc == 0, "patch does not apply: " + out
         pkgs = ". ./multiendpoint" if pkg.startswith("grpcgcp") else "./..."
         rcb, outb = sh("go test -vet=off -count=1 -run '^$' %s" % pkgs, cwd=mod)
